@@ -321,11 +321,13 @@ impl FieldParser {
         template: T,
     ) -> IResult<&[u8], Vec<BTreeMap<usize, IPFixFieldPair>>> {
         // Decode record after record in a loop (one stack frame however many records the set
-        // holds), for as long as at least one more record of the size just read can follow.
+        // holds), for as long as at least one more record can follow.
         let mut remaining = i;
         let mut fields = vec![];
         loop {
             let mut total_taken = 0usize;
+            let mut variable_taken = 0usize;
+            let mut variable_fields = 0usize;
             for (c, field) in template.get_fields().iter().enumerate() {
                 let mut data_field = BTreeMap::new();
                 let (i, field_value) = field.parse_as_field_value(remaining)?;
@@ -333,9 +335,18 @@ impl FieldParser {
                 data_field.insert(c, (field.field_type, field_value));
                 fields.push(data_field);
                 total_taken = total_taken.saturating_add(taken);
+                if field.field_length == 65535 {
+                    variable_taken = variable_taken.saturating_add(taken);
+                    variable_fields = variable_fields.saturating_add(1);
+                }
                 remaining = i;
             }
-            if total_taken == 0 || remaining.len() < total_taken {
+            // The next record takes at least what the fixed-length fields of this one took,
+            // plus one length byte per variable-length field; anything shorter is padding.
+            let min_next = total_taken
+                .saturating_sub(variable_taken)
+                .saturating_add(variable_fields);
+            if total_taken == 0 || remaining.len() < min_next {
                 break;
             }
         }
